@@ -78,7 +78,7 @@ def c05extra():
             {"h":"VpC05","x":[[K['SDES']],[1],[1,2],rng(5,9)]},{"h":"VpC05","x":[[K['BYE']],[1],rng(5,9)]},
             {"h":"VpC05","x":[[K['APP']],[6,7,9]]},{"h":"VpC05","x":[[K['CCFB']],[1],[5]]},{"h":"VpC05","x":[[K['XR']],[10,11,12,13,14,15]]}]
 for pid, h in [('C02','VpC02'),('C03','VpC03'),('C05','VpC05'),('C10','VpC10')]:
-    R[pid] = {"quick": codec(h,'quick'), "thorough": codec(h,'thorough'), "bounds": CODEC_B, "bounds_thorough": CODEC_BT, "require_reach": ["reach:end"], "opts": {"unwind": 300},
+    R[pid] = {"quick": codec(h,'quick'), "thorough": codec(h,'thorough'), "bounds": CODEC_B, "bounds_thorough": CODEC_BT, "require_reach": ["reach:end"], "opts": {"unwind": 300}, "opts_thorough": {"unwind": 8000},
         "outside_claim": ["shapes (list lengths, text lengths, block sequences) not listed in the bounds", "RR/SR profile extensions that are not a multiple of four octets (see DESIGN: outside the well-formed domain D of C02/C03)"]}
 for t in ('quick','thorough'):
     R['C10'][t] = R['C10'][t] + [{"h":"VpC10","x":[[K['XR']],[12,13,14,15]]},{"h":"VpC10","x":[[K['XR']],[13],[5,13,4]]}]
@@ -110,7 +110,7 @@ R['C14'] = {
  "quick": [{"h":"VpC14_Decode","x":[rng(0,63)]},{"h":"VpC14_Encode","x":[rng(0,254)]},{"h":"VpC14_Negative","x":[[0,1,100,127,145,200,254]]},
            {"h":"VpC14_RefProps"},{"h":"VpC14_Count","x":[[0,1,2,255]]}],
  "bounds": "decode: all 64 x 2^18 wire pairs (one query per exponent); encode: every finite non-negative float32 (one query per IEEE exponent field 0..254, fraction symbolic, denormals included); negative: 7 exponent fields x all fractions; SSRC lists of length 0,1,2,255",
- "require_reach": ["reach:end"], "opts": {"unwind": 300},
+ "require_reach": ["reach:end"], "opts": {"unwind": 300}, "opts_thorough": {"unwind": 8000},
  "assumptions": ["monotonicity, minimal exponent and the rounding gap are proved on the bit-level reference encoder, which VpC14_Encode shows equal to MarshalTo for every finite non-negative float32"],
  "outside_claim": ["NaN and +Inf bitrates (the property quantifies over finite values)"],
 }
@@ -220,7 +220,7 @@ def c04(level):
 R['C04'] = {"quick": c04('quick'), "thorough": c04('thorough'),
  "bounds": "canonical RFC encodings (independent reference encoder) of every model value of the codec shapes: " + CODEC_B + "; count-inflated SR/RR/SDES/BYE headers (inflation d symbolic) on 13 shapes; reserved bits: XR header count bits and the reserved bits/octets of each single XR block kind, FIR reserved octets; APP packets with the padding bit for 9 (data, padding) length pairs with symbolic padding octets; CCFB not-received metric blocks with all 2^15 stray bit patterns",
  "bounds_thorough": "as quick on the thorough codec shapes",
- "require_reach": ["reach:end"], "opts": {"unwind": 300},
+ "require_reach": ["reach:end"], "opts": {"unwind": 300}, "opts_thorough": {"unwind": 8000},
  "assumptions": ["alternative TWCC chunkings are checked under C13, unnormalised REMB pairs under C14 (all 2^24 wire pairs)", "CCFB num_reports is written in the library's pinned n-1 convention (RFC text unavailable offline)"],
  "outside_claim": ["shapes not listed", "SDES chunks with more than the minimal null padding"]}
 def c18(level):
@@ -236,7 +236,7 @@ def c18(level):
     return q
 R['C18'] = {"quick": c18('quick'), "thorough": c18('thorough'),
  "bounds": "frame conditions for all field values of the codec shapes (" + CODEC_B + "): Marshal, MarshalSize, DestinationSSRC, String executed twice in interleaved order on a frozen value; decode frame conditions on one symbolic frame of 4..20 octets per packet-type class (4..16 for SDES/BYE/PSFB, 8..12 XR, 12..20 RTPFB), through rtcp.Unmarshal and CompoundPacket.Unmarshal",
- "require_reach": ["reach:end"], "opts": {"unwind": 300, "fmtmethods": 1},
+ "require_reach": ["reach:end"], "opts": {"unwind": 300, "fmtmethods": 1}, "opts_thorough": {"unwind": 8000},
  "assumptions": ["the schedule/history quantifier is discharged by reduction (DESIGN C18): the solver decides, for all inputs in the bound, that no operation stores into an object that existed before the call (other than the documented XRHeader fields), into its input buffer or into a package-level variable, and that repeated calls return equal results; freedom from data races and schedule independence then follow from the Go memory model by a pencil-and-paper non-interference argument, not by exploring interleavings", "synchronisation inside fmt/reflect (sync.Pool, type caches) is trusted"],
  "outside_claim": ["actual exploration of goroutine interleavings", "shapes and frame lengths beyond the bound"]}
 kinds9 = rng(1,9)
@@ -245,7 +245,7 @@ R['C15'] = {
  "thorough": [{"h":"VpC15","a":[[]] + [[k] for k in kinds9] + [[k1,k2] for k1 in kinds9 for k2 in kinds9] + [[k1,k2,k3] for k1 in [1,3,5,6,8] for k2 in kinds9 for k3 in [2,4,7,9,8]]}],
  "bounds": "every sequence of 0, 1 and 2 report blocks over the 7 RFC 3611 kinds and two unknown-block shapes (block type symbolic over 0 and 8..255, 0 or 4 content octets), all scalar fields symbolic, RLE blocks with 2 chunks, 2 receipt times, 1 DLRR sub-block",
  "bounds_thorough": "as quick plus 225 three-block sequences",
- "require_reach": ["reach:end"], "opts": {"unwind": 300},
+ "require_reach": ["reach:end"], "opts": {"unwind": 300}, "opts_thorough": {"unwind": 8000},
  "assumptions": ["reflect is modelled by the engine against go/types of the current source (struct field order, tags, exportedness, sizes)"],
  "outside_claim": ["longer block sequences and other list lengths", "RLE blocks with an odd number of chunks (recorded under C05)"]}
 R['C13'] = {
